@@ -31,6 +31,8 @@ fn plan(prop: &str, o: &mut Out) {
             if prop == "C03" {
                 let c = o.q(3000, 100000);
                 g_numerals(o, "parse_str", &all, c);
+                // text -> bits -> text for the special values too (payloads of every length)
+                g_specials(o);
             }
         }
         "C04" => {
